@@ -264,7 +264,10 @@ func (g *ExprGen) Pred(depth int) Expr {
 	case 9:
 		return bin(pick(r, []string{"=", "!=", "<", ">"}), &EPath{Steps: []*Stp{g.Step(0, 0)}}, pick(r, []Expr{num("1"), num("2"), lit("abc"), lit("1"), num("10")}))
 	case 10:
-		return pick(r, []Expr{lit(""), lit("x"), call("true"), call("false"), call("not", call("position"))})
+		return pick(r, []Expr{lit(""), lit("x"), call("true"), call("false"), call("not", call("position")),
+			// a STRING that reads as a number is converted with boolean(), not compared with the position
+			lit("2"), lit("0"), lit(" 1 "), lit("1.5"), call("string", call("position")), call("string", num("2")),
+			call("string", &EPath{Steps: []*Stp{{Axis: "attribute", Test: NodeTest{Kind: "any"}, Abbrev: true}}}), call("normalize-space", lit(" 3 ")), call("concat", lit("1"), lit(""))})
 	case 11:
 		if depth > 0 {
 			return bin(pick(r, []string{"and", "or"}), g.Pred(depth-1), g.Pred(depth-1))
